@@ -419,6 +419,14 @@ def run(ctx):
         elif not r["ok"] and sc["state"] == "open-fails":
             # outside the property (it speaks about a driver that was opened successfully): recorded, never a verdict
             ctx.notes.setdefault("after_a_failed_open_outside_the_property", []).append({"scenario": sc, "observed": r["sig"]})
+        elif not r["ok"] and "goroutine-leak" in r.get("sig", ""):
+            # V2: the goroutine census of a run on a loaded machine can contain a goroutine of a set-up attempt that was given up
+            # (the set-up is retried with a generous budget); a leak of the library shows again when the scenario runs alone
+            again = ctx.run_harness("isolated", [sc], args=["c07"], env={"VERIF_WORKERS": "1", "VERIF_RACELOG": racelog, "GORACE": "halt_on_error=0 exitcode=0 log_path=%s" % racelog})
+            if again and (again[0].get("died") or not again[0].get("ok", True)):
+                ctx.violation(again[0].get("sig", r["sig"]), again[0].get("detail", r["detail"]), sc)
+            else:
+                ctx.notes.setdefault("unreproduced_candidates", []).append({"scenario": sc, "first": r["detail"][:300]})
         elif not r["ok"]:
             ctx.violation(r["sig"], r["detail"], sc)
         elif r.get("extra", {}).get("forced"):
